@@ -9,32 +9,11 @@ ENCODERS = ("PVLEncoder", "ODLEncoder", "PDSLabelEncoder", "ISISEncoder")
 
 
 def encoder_pairing(repo, enc):
-    """Default (grammar class, decoder class) of an encoder class, read from
-    its __init__ (and its super chain)."""
-    grammar = decoder = None
-    for c in repo.mro(enc):
-        if c.startswith("ext:"):
-            continue
-        init = repo.classes[c].methods.get("__init__")
-        if init is None:
-            continue
-        for n in ast.walk(init):
-            if isinstance(n, ast.If) and isinstance(n.test, ast.Compare) and isinstance(n.test.ops[0], ast.Is) \
-                    and isinstance(n.test.comparators[0], ast.Constant) and n.test.comparators[0].value is None:
-                which = norm(n.test.left)
-                for b in ast.walk(n):
-                    if isinstance(b, ast.Assign) and isinstance(b.value, ast.Call) and isinstance(b.value.func, ast.Name) \
-                            and repo.has_cls(b.value.func.id):
-                        tgt = norm(b.targets[0])
-                        if which == "grammar" and grammar is None and tgt in ("grammar", "self.grammar") \
-                                and "PVLGrammar" in repo.mro(b.value.func.id):
-                            grammar = b.value.func.id
-                        if which == "decoder" and decoder is None and tgt in ("decoder", "self.decoder") \
-                                and "PVLDecoder" in repo.mro(b.value.func.id):
-                            decoder = b.value.func.id
-    if grammar is None or decoder is None:
-        raise AnalysisError(f"cannot read the default grammar/decoder of {enc} from its constructor")
-    return grammar, decoder
+    """Default (grammar class, decoder class) of an encoder class: the classes of the objects its constructor puts
+    in self.grammar / self.decoder when called without arguments (abstract interpretation of the constructor chain,
+    vsa.ctor)."""
+    from . import ctor
+    return ctor.attr_class(repo, enc, "grammar"), ctor.attr_class(repo, enc, "decoder")
 
 
 def encoder_options(repo, enc):
